@@ -82,7 +82,11 @@ func buildScript(vc *VC, o *Obligation, withModel bool) string {
 	for _, d := range vc.implFacts() {
 		b.WriteString(d + "\n")
 	}
-	for _, l := range vc.lines[:o.Pos] {
+	cut := o.Cut
+	for i, l := range vc.lines[:o.Pos] {
+		if i < cut && (strings.Contains(l, "(forall ") || strings.Contains(l, "(exists ")) {
+			continue
+		}
 		b.WriteString(l + "\n")
 	}
 	if !o.Reach.IsTrue() {
@@ -301,7 +305,7 @@ func firstLines(s string, n int) string {
 // negatedGoal renders (assert (not goal)); a goal of the form forall xs. body, or A => forall xs. body, is skolemised.
 func negatedGoal(goal Term) []string {
 	plain := []string{"(assert " + Not(goal).S + ")"}
-	if !strings.Contains(goal.S, "(forall ") || !strings.Contains(goal.S, "(* ") {
+	if !strings.Contains(goal.S, "(forall ") {
 		return plain
 	}
 	n := parseSx(goal.S)
